@@ -30,7 +30,7 @@ from .dasksim import DaskSim
 PROP = "C05"
 RULE = (
     "each run draws an image (shape from a boundary-biased set incl. narrower than a tile, single row/column, sides equal to 2^levels; axis "
-    "order YX/YXS/SYX with 1-5 samples; 12 dtypes incl. int64/uint64/float16/complex64; nodata none/value/NaN; a GeoBox in one of three CRSs, north-up or "
+    "order YX/YXS/SYX with 1-5 samples; 13 dtypes incl. int64/uint64/float16/complex64/bool (a bool mask is expected back as 0/1 bytes); nodata none/value/NaN; a GeoBox in one of three CRSs, north-up or "
     "south-up / mirrored / rotated / sheared / non-square), writer options (blocksize list, compression x predictor from the probed "
     "domain, bigtiff, stats, spill_sz, writes_per_chunk), a source chunking (regular or irregular tuples; samples one per chunk, all in one, or in twos), a sink (file with four parts-directory placements, s3 in-process, "
     "s3 cluster-coordinated with per-task writer copies) and a DaskSim configuration (policy, K workers with line-level pre-emption inside the "
@@ -55,8 +55,13 @@ ASSUMPTIONS = [
 ]
 
 CODEC_DOMAIN: Optional[Dict[str, Any]] = None
-DTYPES = ["uint8", "uint16", "int16", "int32", "float32", "float64", "int8", "uint32", "int64", "uint64", "float16", "complex64"]
-RARE_DTYPES = {"int64", "uint64", "float16", "complex64"}  # drawn less often (12 % of runs)
+DTYPES = ["uint8", "uint16", "int16", "int32", "float32", "float64", "int8", "uint32", "int64", "uint64", "float16", "complex64", "bool"]
+RARE_DTYPES = {"int64", "uint64", "float16", "complex64", "bool"}  # drawn less often (12 % of runs)
+
+
+def file_dtype(dtype: str) -> str:
+    """Sample type the file is expected to carry: TIFF has no boolean samples, masks are stored as 0/1 bytes."""
+    return "uint8" if dtype == "bool" else dtype
 COMPRESSIONS = ["deflate", "adobe_deflate", "zstd", "lzw", "lzma", "lerc", "lerc_deflate", "lerc_zstd"]
 PREDICTORS = ["unset", False, True]
 
@@ -87,7 +92,9 @@ def probe_codecs() -> Dict[str, Any]:
     d = tempfile.mkdtemp(prefix="odcsim-probe-", dir="/dev/shm")
     try:
         for dtype in DTYPES:
-            img = ((np.arange(32 * 48).reshape(32, 48) * 37 + 11) % 251).astype(dtype)
+            img = ((np.arange(32 * 48).reshape(32, 48) * 37 + 11) % 251).astype(file_dtype(dtype))
+            if dtype == "bool":
+                img = (img % 3 == 0).astype("uint8")
             if np.dtype(dtype).kind == "f":
                 img = img + img.dtype.type(0.25)
             elif np.dtype(dtype).kind == "c":
@@ -104,7 +111,7 @@ def probe_codecs() -> Dict[str, Any]:
                         c, cargs = "lerc", {"compression": "deflate"}
                     elif comp == "lerc_zstd":
                         c, cargs = "lerc", {"compression": "zstd"}
-                    p = _eff_predictor(dtype, comp, pred)
+                    p = _eff_predictor(file_dtype(dtype), comp, pred)
                     fn = os.path.join(d, "p.tif")
                     try:
                         tifffile.imwrite(fn, img, tile=(16, 16), compression=c, compressionargs=cargs, predictor=p if p != 1 else None)
@@ -177,6 +184,8 @@ def generate(rng: random.Random, tier: str) -> dict:
     nodata: Any = rng.choice([None, None, 0, 7, 200 if dtype != "int8" else -100, "nan"])
     if nodata == "nan" and kind != "f":
         nodata = None
+    if dtype == "bool" and nodata is not None:
+        nodata = rng.choice([0, 1])
     blocks = [16, 32, 48, 64, 20, 100, 128, 256, 512]
     bs_kind = rng.choice(["list1", "list2", "list3", "int", "unset", "tuple"])
     if bs_kind == "list1":
@@ -235,6 +244,8 @@ def generate(rng: random.Random, tier: str) -> dict:
         "band_chunk": band_chunk,
         "sink": sink,
         "place": place,
+        # something is already at the destination path (a re-run, a second save to the same name)
+        "dst_exists": bool(sink == "file" and rng.random() < 0.12),
         "s3_min_write": rng.choice([4 << 10, 8 << 10, 16 << 10, 64 << 10]),
         "crs": rng.choice([4326, 32633, 3857]),
         "gbox": "std" if rng.random() < 0.7 else rng.choice(GBOX_KINDS[1:]),
@@ -265,6 +276,8 @@ def make_pixels(ny: int, nx: int, ns: int, axis: str, dtype: str) -> np.ndarray:
 
     def plane(b: int) -> np.ndarray:
         v = rows * 131 + cols * 7 + b * 1009 + 1
+        if dt.kind == "b":
+            return ((v * 2654435761) >> 7) % 5 < 2  # a mask: no run-length or period a tile shift would preserve
         if dt.kind == "f":
             return ((v % 9973).astype(dt) + dt.type(0.5)).astype(dt)
         if dt.kind == "c":
@@ -402,6 +415,7 @@ def _execute(record: dict, rng: Optional[random.Random]) -> Outcome:
         "sink_s3_inproc": 0,
         "sink_s3_cluster": 0,
         "sink_cross_device": 0,
+        "destination_existed": 0,
         "s3_multiple_parts": 0,
         "multi_worker": 0,
         "padding_adds_whole_tiles": 0,
@@ -485,6 +499,9 @@ def _execute(record: dict, rng: Optional[random.Random]) -> Outcome:
                 probes["sink_file"] = 1
                 dst = tmp / "out" / "img.tif"
                 dst.parent.mkdir()
+                if cfg.get("dst_exists"):
+                    dst.write_bytes(b"II*\x00" + bytes(range(256)) * (1 + cfg["uuid_seed"] % 40))
+                    probes["destination_existed"] = 1
                 place = cfg.get("place") or "default"
                 if place == "base-exists":
                     (tmp / "pb").mkdir()
@@ -747,8 +764,8 @@ def check_file(path: Path, data: np.ndarray, cfg: dict, aff: List[float], crs: s
     if tuple(got0.shape) != tuple(want_shape):
         return Violation(PROP, "O5.2", "page0-decoded-shape", {"got": list(pg0.shape), "want": list(want_shape), "axis": axis, "ns": ns, "source": [ny, nx]})
     sl = {"YX": np.s_[:ny, :nx], "YXS": np.s_[:ny, :nx, :], "SYX": np.s_[:, :ny, :nx]}[axis]
-    if str(got0.dtype) != dtype:
-        return Violation(PROP, "O5.2", "page0-dtype", {"got": str(got0.dtype), "want": dtype})
+    if str(got0.dtype) != file_dtype(dtype):
+        return Violation(PROP, "O5.2", "page0-dtype", {"got": str(got0.dtype), "want": file_dtype(dtype)})
     if not np.array_equal(got0[sl], data):
         bad = np.argwhere(got0[sl] != data)
         return Violation(PROP, "O5.2", "tifffile-pixels-differ", {"n": int(len(bad)), "first": bad[0].tolist(), "axis": axis, "ns": ns, "source": [ny, nx]})
@@ -776,8 +793,8 @@ def check_file(path: Path, data: np.ndarray, cfg: dict, aff: List[float], crs: s
         return Violation(PROP, "O5.1", "gdal-cannot-read", {"error": f"{type(e).__name__}: {str(e)[:160]}"})
     if f_count != nb:
         return Violation(PROP, "O5.1", "band-count", {"got": f_count, "want": nb, "axis": axis, "source": [ny, nx]})
-    if any(d != dtype for d in f_dtypes):
-        return Violation(PROP, "O5.1", "gdal-dtype", {"got": f_dtypes, "want": dtype})
+    if any(d != file_dtype(dtype) for d in f_dtypes):
+        return Violation(PROP, "O5.1", "gdal-dtype", {"got": f_dtypes, "want": file_dtype(dtype)})
     if f_hw != (H, W):
         return Violation(PROP, "O5.1", "gdal-size-differs-from-ifd", {"gdal": list(f_hw), "ifd": [H, W]})
     if axis == "YX":
@@ -837,7 +854,7 @@ def candidates(record: dict) -> Iterable[dict]:
             c["config"]["sink"] = "s3"
             yield c
     for k, simple in (
-        ("place", "default"), ("stats", False), ("bigtiff", True), ("nodata", None), ("level", None), ("spill_sz", "default"), ("wpc", "default"),
+        ("place", "default"), ("dst_exists", False), ("stats", False), ("bigtiff", True), ("nodata", None), ("level", None), ("spill_sz", "default"), ("wpc", "default"),
         ("resampling", "nearest"), ("predictor", "unset"), ("blocksize", [16]), ("blocksize", [32]), ("band_chunk", "all"), ("crs", 4326), ("gbox", "std"),
     ):
         if cfg.get(k) != simple and not (k == "place" and cfg["sink"] != "file"):
